@@ -1,6 +1,10 @@
 package props
 
 import (
+	"go/ast"
+	"go/token"
+	"go/types"
+
 	"strings"
 
 	"occheck/internal/engine"
@@ -28,6 +32,8 @@ func runC18(c *engine.Ctx, tier string) {
 	oneTokenizerIn(c, "C18.4", []string{pkgTreeV2, pkgTreeV3}, 2)
 	// a leaf of the tree is the stored value read through the accessor of its own kind (a signed value read as
 	// unsigned changes the document, and as a key leaf splits the list entry)
+	keyKindsCovered(c, "C18.6/v2", pkgTreeV2)
+	keyKindsCovered(c, "C18.6/v3", pkgTreeV3)
 	leafWritten(c, "C18.5/v2", pkgTreeV2)
 	leafWritten(c, "C18.5/v3", pkgTreeV3)
 }
@@ -141,5 +147,129 @@ func listEntryFacts(c *engine.Ctx, id, rel string) {
 	}
 	if member > 0 {
 		o.Site(rel + ": pruning tests membership against every recorded deleted root")
+	}
+}
+
+// keyKindsCovered: C18.6 (seed C18-r42) — writer/reader table agreement inside the tree builder. A list entry
+// is found again by comparing, as text, the key values of the path with what handleLeafValue stored for the key
+// leaf. convertBasicType must therefore render every scalar kind that handleLeafValue stores as the text the
+// path carries: for every Go type of a value stored by a non-leaf-list case that is a string, a signed or
+// unsigned integer or a bool there is a case in convertBasicType (a reflect.Kind of that class, or a type-switch
+// case of that type). A missing class makes the key leaf unequal to its own key: every later leaf of the entry
+// starts a second entry. (Floats and byte slices are not covered at HEAD either: §7, review of C18.)
+func keyKindsCovered(c *engine.Ctx, id, rel string) {
+	o := c.Custom(id, "K-tables(agreement)", "every scalar class {string, signed, unsigned, bool} that handleLeafValue stores in an entry has a rendering case in convertBasicType",
+		"list entries are identified by their full key sets: distinct entries are never merged and one entry is never split")
+	defer o.Done(2)
+	pkg := c.P.Pkg(rel)
+	if pkg == nil {
+		o.Undecided(rel, "package not found")
+		return
+	}
+	info := pkg.TypesInfo
+	class := func(t types.Type) string {
+		b, ok := t.Underlying().(*types.Basic)
+		if !ok {
+			return ""
+		}
+		switch {
+		case b.Info()&types.IsString != 0:
+			return "string"
+		case b.Info()&types.IsBoolean != 0:
+			return "bool"
+		case b.Info()&types.IsUnsigned != 0:
+			return "unsigned"
+		case b.Info()&types.IsInteger != 0:
+			return "signed"
+		}
+		return ""
+	}
+	stored := map[string]string{}
+	covered := map[string]bool{}
+	var convPos token.Pos
+	for _, fi := range c.P.FuncsOf(pkg) {
+		switch {
+		case strings.HasSuffix(fi.Name(), ".handleLeafValue"):
+			for _, h := range c.P.WithHelpers(fi, 2, true) {
+				ast.Inspect(h.Decl.Body, func(n ast.Node) bool {
+					as, ok := n.(*ast.AssignStmt)
+					if !ok || len(as.Lhs) != 1 || len(as.Rhs) != 1 {
+						return true
+					}
+					ix, ok := ast.Unparen(as.Lhs[0]).(*ast.IndexExpr)
+					if !ok {
+						return true
+					}
+					if mt := info.TypeOf(ix.X); mt == nil {
+						return true
+					} else if _, isMap := mt.Underlying().(*types.Map); !isMap {
+						return true
+					}
+					if t := info.TypeOf(as.Rhs[0]); t != nil {
+						if k := class(t); k != "" {
+							stored[k] = c.P.Pos(as.Pos())
+						}
+					}
+					return true
+				})
+			}
+		case strings.HasSuffix(fi.Name(), ".convertBasicType"):
+			convPos = fi.Decl.Pos()
+			covered["string"] = false
+			ast.Inspect(fi.Decl.Body, func(n ast.Node) bool {
+				cc, ok := n.(*ast.CaseClause)
+				if !ok {
+					return true
+				}
+				for _, e := range cc.List {
+					if tv, ok := info.Types[e]; ok && tv.IsType() {
+						if k := class(tv.Type); k != "" {
+							covered[k] = true
+						}
+						continue
+					}
+					switch types.ExprString(e) {
+					case "reflect.Int", "reflect.Int8", "reflect.Int16", "reflect.Int32", "reflect.Int64":
+						covered["signed"] = true
+					case "reflect.Uint", "reflect.Uint8", "reflect.Uint16", "reflect.Uint32", "reflect.Uint64":
+						covered["unsigned"] = true
+					case "reflect.Bool":
+						covered["bool"] = true
+					case "reflect.String":
+						covered["string"] = true
+					}
+				}
+				return true
+			})
+			// reflect.Value.String() of a string value is the string: the fall-through covers strings
+			ast.Inspect(fi.Decl.Body, func(n ast.Node) bool {
+				if r, ok := n.(*ast.ReturnStmt); ok && len(r.Results) == 1 {
+					if call, ok := r.Results[0].(*ast.CallExpr); ok {
+						if sel, ok := call.Fun.(*ast.SelectorExpr); ok && sel.Sel.Name == "String" {
+							if t := info.TypeOf(sel.X); t != nil && strings.HasSuffix(t.String(), "reflect.Value") {
+								covered["string"] = true
+							}
+						}
+					}
+				}
+				return true
+			})
+		}
+	}
+	if len(stored) == 0 || convPos == token.NoPos {
+		o.Undecided(rel, "anchor not found: handleLeafValue stores no scalar, or convertBasicType is gone")
+		return
+	}
+	for _, k := range []string{"string", "signed", "unsigned", "bool"} {
+		at, isStored := stored[k]
+		if !isStored {
+			continue
+		}
+		o.Site(at + " " + k + " stored")
+		o.Eval(1)
+		if !covered[k] {
+			o.Fail(&engine.Violation{Key: rel + ".convertBasicType|no rendering for " + k, Pos: c.P.Pos(convPos), Func: "convertBasicType",
+				Msg: "handleLeafValue stores a " + k + " value (" + at + ") but convertBasicType has no case that renders a " + k + " as its text: a key leaf of that type never equals the key of its own path, and the entry is split"})
+		}
 	}
 }
